@@ -78,7 +78,17 @@ def transform_to_spatial_orbitals(expr: Expr, target_idx: str,
                                    " because the index with alpha spin is "
                                    f"already used in the term: {term}.")
             sub[old] = new
-        restricted_expr += term.sympy.subs(order_substitutions(sub))
+        # a KroneckerDelta vanishes for indices of different spin. Therefore,
+        # first remove the spin of the beta indices before assigning alpha
+        # spin. Otherwise, delta_{i_beta j_beta} evaluates to 0 when only
+        # one of the indices has been substituted.
+        no_spin = get_symbols([i.name for i in beta_idx])
+        remove_spin = {old: tmp for old, tmp in zip(beta_idx, no_spin)}
+        add_spin = {tmp: sub[old] for old, tmp in remove_spin.items()}
+        restricted_expr += (
+            term.sympy.subs(order_substitutions(remove_spin))
+            .subs(order_substitutions(add_spin))
+        )
     return restricted_expr
 
 
